@@ -374,7 +374,10 @@ func genC01(g *Gen) {
 			dictCfg = append(dictCfg, cfg)
 		}
 	}
-	for i := 0; i < g.pick(3, 24); i++ {
+	for _, c := range []string{"dict/s10/cf.dichotomic", "dict/s12/cf.dichotomic", "dict/s16/hr.U.H.D", "dict/f10/cf.dichotomic", "dict/h10_0/cf.dichotomic", "opt/dict/s10/cf.dichotomic"} {
+		dictCfg = append(dictCfg, parseConfig(c))
+	}
+	for i := 0; i < g.pick(5, 24); i++ {
 		w := uint(6 + g.R.Intn(12))
 		low := g.R.Bits(int(w))
 		low.SetBit(low, int(w)-1, 1)
@@ -382,6 +385,9 @@ func genC01(g *Gen) {
 		low.Lsh(low, uint(g.R.Intn(6)))
 		x := new(big.Int).Lsh(big.NewInt(int64(1+2*g.R.Intn(2))), uint(low.BitLen()+4+g.R.Intn(40)))
 		x.Add(x, low)
+		if i == 0 {
+			x = big.NewInt(34359755360) // 2^35 + a 15-bit window: doublings of the top term meet 16 in the dictionary chain
+		}
 		for _, cfg := range dictCfg {
 			add(cfg, x)
 		}
